@@ -60,7 +60,10 @@ def depth(v):
 
 TRICKY_BYTES = [b'', b':', b',', b'}', b']', b'~', b'#', b'12:', b'0:~', b'3:abc,', b'5:', b'999999999:', b'1:', b'\x00', b'\xff\xfe', b'0', b'00:', b'-1:x,',
                 b'4:true!', b'\n', b'1:a,1:b,', b'13:']
-TEXTS = ['', 'a', 'abc', 'é', 'ж', '€', '😀', 'naïve café', '12:', ':', ',', '~', 'ключ', '\x00', 'a\nb', '漢字' * 3]
+TEXTS = ['', 'a', 'abc', 'é', 'ж', '€', '😀', 'naïve café', '12:', ':', ',', '~', 'ключ', '\x00', 'a\nb', '漢字' * 3,
+         # characters a lenient decoder, normaliser or stripper would alter: byte-order mark / zero-width no-break space first and inside, line and
+         # paragraph separators, a combining sequence next to its precomposed form, trailing and leading white space, the replacement character
+         '\ufeffabc', '\ufeff', 'a\ufeffb', '\ufeff\ufeff', '\u2028', 'x\u2029', 'e\u0301', '\u00e9', ' lead', 'trail ', '\t', '\r\n', '\ufffd', '\x7f', '\u0085']
 
 
 def gen_scalar(rng):
